@@ -29,7 +29,14 @@ def make_case(i, rng, tier):
     strict = rng.random() < 0.4
     p = common.spec("pretty", inp["root"], data, inp["cc"], inp["enc"], strict=strict, consumer="pretty")
     e = common.spec("events", inp["root"], data, inp["cc"], inp["enc"], strict=strict, consumer="events")
-    tasks, sched = common.perturb(rng, [p, e], p_by=0.15)
+    extra = []
+    if rng.random() < 0.3:
+        # a second, unrelated printer pipeline stepped in between (printers must not share anything)
+        inp2, data2, _r2, _f2 = common.gen_malformed(rng, 10 ** 9, p_wellformed=0.3, allow_random=False)
+        extra.append(common.spec("by-pretty", inp2["root"], data2, inp2["cc"], inp2["enc"], strict=rng.random() < 0.3, consumer="pretty"))
+    tasks, sched = common.perturb(rng, [p, e] + extra, p_by=0.15, roots=True)
+    if extra and sched.get("policy") == "sequential" and rng.random() < 0.7:
+        sched = {"policy": "round_robin"}
     return {"input": {"root": inp["root"], "cc": inp["cc"], "enc": inp["enc"], "label": inp["label"], "family": fam, "orig": bytes(inp["data"]).hex()},
             "faults": recs, "tasks": tasks, "schedule": sched}
 
@@ -43,7 +50,7 @@ def path_last(e):
     return str(e.path[-1])
 
 
-def expected_rows(events):
+def expected_rows(events, root_nodes=1):
     """[(kind, tokens | alternatives)] derived from the events by this module's own folding"""
     from tpmstream.common.event import MarshalEvent
     from tpmstream.common.util import is_list
@@ -102,7 +109,8 @@ def expected_rows(events):
             continue
         b = e.value.to_bytes()
         rows.append(("prim", head + [b.hex()] + text_form(e.value).split(), b))
-        if hasattr(e.value, "attributes") and e.path[-1].index is None:
+        # "attribute words that are not list elements": the root value is never one, whatever its caller-chosen path is
+        if hasattr(e.value, "attributes") and (e.path[-1].index is None or len(e.path) <= root_nodes):
             for a in e.value.attributes():
                 rows.append(("bits", ["|"] * (depth + 1) + ["." + a._name]))
         i += 1
@@ -228,7 +236,7 @@ def check(case):
     events = tp.events
     res.count("warning-events", sum(1 for it in tp.items if it[0] == "W"))
     res.count("events", len(events))
-    rows = expected_rows(events)
+    rows = expected_rows(events, max(1, len((tp.spec.get("root_path") or "").split("."))))
     lines = tp.out
     if tp.exc is not None:
         # the printer did not see the end of the stream; compare the rows it produced as a prefix
